@@ -183,3 +183,18 @@ Proof.
   apply TInv_new.
 Qed.
 Print Assumptions C08_predicate_variant_example.
+
+(* Configuration plumbing (Model/Config.v, transcribing ConfigBuilder, Config, Discv5::new / Discv5::start,
+   tied to the code by the `glue` correspondence run on real loopback sockets): the parameters the theorems
+   above take as given are the ones the application configured - the value set last through the builder,
+   or the default - at every component they are handed to. *)
+Require Discv5V.Generated.Params Discv5V.Model.Config Discv5V.Proofs.Config.
+Theorem C08_configured_max_nodes_response_reaches_the_service : forall ops v, Discv5V.Model.Config.start_node ops = Some v ->
+  Discv5V.Model.Config.VN (Discv5V.Model.Config.c_max_nodes_response (Discv5V.Model.Config.nv_built v)) = Discv5V.Model.Config.configured ops Discv5V.Model.Config.FMaxNodesResponse /\
+  Discv5V.Model.Config.VN (Discv5V.Model.Config.c_max_nodes_response (Discv5V.Model.Config.nv_service v)) = Discv5V.Model.Config.configured ops Discv5V.Model.Config.FMaxNodesResponse /\
+  Discv5V.Model.Config.VN (Discv5V.Model.Config.c_max_nodes_response (Discv5V.Model.Config.nv_handler v)) = Discv5V.Model.Config.configured ops Discv5V.Model.Config.FMaxNodesResponse.
+Proof. exact Discv5V.Proofs.Config.effective_max_nodes_response. Qed.
+Print Assumptions C08_configured_max_nodes_response_reaches_the_service.
+Theorem C08_configuration_example : exists v, Discv5V.Model.Config.start_node Discv5V.Proofs.Config.example_ops = Some v.
+Proof. destruct Discv5V.Proofs.Config.example_starts as [v [H _]]. exists v. exact H. Qed.
+Print Assumptions C08_configuration_example.
